@@ -130,7 +130,23 @@ def special_points(logtext):
             pts.update((i - 1, i, i + 1))
     return pts, len(lines)
 
+AY_READS = [0]
+
+def install_ay_monitor():
+    """Counting wrapper on the real trace.Tracer.read_port: how often a read of an AY-decoded port (A15=A14=1, A1=0) was made: the answer depends on the AY register-select value and registers."""
+    from skoolkit import trace
+    if getattr(trace.Tracer, '_vk_wrapped', False):
+        return
+    orig = trace.Tracer.read_port
+    def read_port(self, registers, port):
+        if port & 0xC002 == 0xC000:
+            AY_READS[0] += 1
+        return orig(self, registers, port)
+    trace.Tracer.read_port = read_port
+    trace.Tracer._vk_wrapped = True
+
 def run(shard, spec):
+    install_ay_monitor()
     nprog = 64 if shard.tier == 'quick' else 2400
     cases = list(range(spec['shard'], nprog, spec['of']))
     if spec['shard'] == 0:
@@ -154,12 +170,14 @@ def run(shard, spec):
             shard.violation('trace.py failed creating the start snapshot: %s' % r.describe(), rp)
             continue
         whole = 'whole.' + ext
+        ay0 = AY_READS[0]
         r = harness.run_tool('trace', opts + ['-v', '-s', str(org), '-m', str(N), fn0, whole])
         if not r.ok:
             shard.violation('trace.py failed on the uninterrupted run: %s\n%s' % (r.describe(), (r.tb or '')[-600:]), rp)
             continue
         pts, nlines = special_points(r.out)
         whole_log = r.out
+        ay_reads_48k = AY_READS[0] - ay0 if not is128 else 0
         sw = load(whole)
         bad = 0
         for n1 in range(1, N):
@@ -184,7 +202,7 @@ def run(shard, spec):
                 d = []
             if d:
                 shard.violation('%s %s %s: run of %d differs from %d + dump + %d: %s' % ('128K' if is128 else '48K', ext, ' '.join(opts) or '(C, plain)', N, n1, N - n1, d[:5]),
-                                dict(rp, n1=n1), classify(d, cmio, is128, whole_log, n1))
+                                dict(rp, n1=n1), classify(d, cmio, is128, whole_log, n1, ay_reads_48k))
                 bad += 1
                 if bad > 3:
                     break
@@ -230,7 +248,15 @@ def memptr_flags_only(d, log):
             return False
     return True
 
-def classify(d, cmio, is128, log, n1):
+def classify(d, cmio, is128, log, n1, ay_reads_48k=0):
+    if ay_reads_48k:
+        # C10-48k-ay-registers-not-saved: on a 48K machine trace.py answers reads of port 0xFFFD from simulated AY
+        # registers (monitor on Tracer.read_port saw such reads in the uninterrupted run), but 48K snapshots carry no AY
+        # state, so a resumed run reads different values
+        return 'C10-48k-ay-registers-not-saved'
+    return _classify_halt(d, cmio, is128, log, n1)
+
+def _classify_halt(d, cmio, is128, log, n1):
     """Known-finding mechanisms. C10-halted-flag-not-saved: the split falls inside a HALT wait (the CPU is in the halted
     state), contention is simulated, the bytes at PC and PC+1 differ in contention (a halted CPU fetches from PC+1, the
     resumed run re-executes HALT from PC because no snapshot carries the halted flag), and nothing but the clock differs."""
